@@ -554,10 +554,10 @@ pub fn data_to_string(data: &Data) -> Result<String, String> {
         }
         Data::Array(a) => {
             let mut v = String::with_capacity(50);
-            for da in a {
+            for (idx, da) in a.iter().enumerate() {
                 match data_arc_to_string(da) {
                     Ok(da_string) => {
-                        if !v.is_empty() {
+                        if idx > 0 {
                             v.push(',');
                         }
                         v.push_str(&da_string);
